@@ -3,7 +3,7 @@ CONSTANTS
   MKind = "bytes"
   MEty = "u8"
   Prefixes <- PrefNew
-  OpNames = {"push", "pop", "clear", "clone", "insert", "remove", "set", "swap", "resize", "get", "append", "append_self", "split_at", "splice", "via_vec"}
+  OpNames = {"push", "pop", "clear", "clone", "insert", "remove", "set", "swap", "resize", "get", "iter", "append", "append_self", "split_at", "splice", "via_vec"}
   MaxOps = 40
   NumSel <- NumSel_none
 SPECIFICATION SimSpec
